@@ -48,6 +48,12 @@ def generate(ctx):
     ds = common.docs(ctx, ctx.scale(350, 12000), finite=False)
     ds += [('s', s) for s in CAST_STRINGS]
     ds += [('i', x) for x in gen.INT_POOL[::3]] + [('u', x) for x in gen.UINT_POOL[::3]] + [('d', x) for x in gen.FLOAT_POOL[::4] + gen.SPECIAL_FLOATS]
+    # a key that is not UTF-8 against a document given as JSON TEXT (the from_utf8 error branch of the text path of
+    # exists_all_keys / exists_any_keys; line coverage showed it unexercised): tie only
+    for t in (b'{"a":1,"b":2}', b'["a","b"]', b'7'):
+        for ks in ([b'a', b'\xff'], [b'\xff', b'a'], [b'\xc3'], [b'a', b'b']):
+            ctx.add('exists_all_keys %s %s' % (gen.hexarg(t), gen.hexlist(ks)), kind='text-keys')
+            ctx.add('exists_any_keys %s %s' % (gen.hexarg(t), gen.hexlist(ks)), kind='text-keys')
     for v in ds:
         e = gen.hexarg(gen.enc(v))
         for op in SCALAR_OPS:
